@@ -179,12 +179,20 @@ def gen_pool(seed, n):
         pool.append((gs.render(g["nodes"]), 0))
 
     collect()
-    # distinct, deterministic order
+    # distinct, deterministic order; every third script is followed by a twin that fails late (a rejected statement after its helpers were
+    # processed): a transpilation that ends in ValueError must leave nothing behind for the next one either
     seen, out = set(), []
-    for s, m in pool:
+    for k, (s, m) in enumerate(pool):
         if s not in seen:
             seen.add(s)
             out.append((s, m))
+            if k % 3 == 1:
+                lines = s.split("\n")
+                at = next((i for i, ln in enumerate(lines) if ln.startswith("while True:")), len(lines) - 1)
+                twin = "\n".join(lines[:at] + ["zz1, zz2, zz3 = 1, 2"] + lines[at:])
+                if twin not in seen:
+                    seen.add(twin)
+                    out.append((twin, 0))
     return out
 
 
